@@ -135,13 +135,13 @@ func vfRunSource(t *testing.T, cfg vfSrcCfg) []map[string]interface{} {
 	select {
 	case <-closed:
 		sink.log(map[string]interface{}{"ev": "CloseReturned", "t": us()})
-	case <-time.After(3 * time.Second):
-		sink.log(map[string]interface{}{"ev": "Hang", "what": "Close did not return in 3 s"})
+	case <-time.After(5 * time.Second):
+		sink.log(map[string]interface{}{"ev": "Hang", "what": "Close did not return in 5 s"})
 	}
 	select {
 	case <-ended:
-	case <-time.After(3 * time.Second):
-		sink.log(map[string]interface{}{"ev": "Hang", "what": "the receiver did not end 3 s after Close"})
+	case <-time.After(5 * time.Second):
+		sink.log(map[string]interface{}{"ev": "Hang", "what": "the receiver did not end 5 s after Close"})
 	}
 	close(stopTraffic)
 	twg.Wait()
